@@ -250,19 +250,22 @@ func (e *c08Env) execRecv(tc *c08Case) (oracle, note string) {
 			hdr.Set("Content-Encoding", "gzip")
 		}
 		res = doHTTP(m, "POST", path, "", hdr, reqBody{Data: body, CL: -2})
-	case "http-json-stream", "http-proto-stream":
+	case "http-json-stream", "http-ndjson-stream", "http-proto-stream":
 		var body []byte
 		add := func(p []byte) {
 			if tc.Proto == "http-proto-stream" {
 				body = append(body, refVarint(uint64(len(p)))...)
 			}
 			body = append(body, p...)
+			if tc.Proto == "http-ndjson-stream" {
+				body = append(body, '\n') // newline-delimited JSON: the separator is not part of any message
+			}
 		}
 		if tc.Lead {
 			add(smallEnc)
 		}
 		add(bigEnc)
-		if tc.Proto == "http-json-stream" {
+		if tc.Proto != "http-proto-stream" {
 			hdr.Set("Content-Type", "application/json")
 		} else {
 			hdr.Set("Content-Type", "application/protobuf")
@@ -487,7 +490,7 @@ func c08Cases(thorough bool) []c08Case {
 		// varint length boundaries (127/128, 16383/16384), powers of two, tiny and large limits
 		limits = []int{8, 16, 32, 33, 100, 127, 128, 129, 255, 256, 1000, 4096, 16383, 16384, 16385, 65536, 1 << 20}
 	}
-	recvProtos := []string{"http-json", "http-proto", "http-body", "http-json-stream", "http-proto-stream", "grpc", "grpc+json", "web", "webtext", "ws"}
+	recvProtos := []string{"http-json", "http-proto", "http-body", "http-json-stream", "http-ndjson-stream", "http-proto-stream", "grpc", "grpc+json", "web", "webtext", "ws"}
 	for _, p := range recvProtos {
 		for _, L := range limits {
 			targets := []int{L - 3, L - 2, L - 1, L, L + 1, L + 2, L + 3, 2 * L, 2*L + 1, 64 * 1024}
@@ -561,7 +564,7 @@ func c08Cases(thorough bool) []c08Case {
 
 func runC08(c *Ctx) {
 	r := c.Run
-	r.Rule("receive: protocol{HTTP unary json/proto/HttpBody, HTTP stream json/proto, gRPC (+json), gRPC-web, gRPC-web-text, WebSocket} × gzip{off,on (Content-Encoding / per-message grpc-encoding, highly compressible payload)} × limit{32,100,1000,default 4MiB; thorough: 17 limits incl. 127/128/129, 16383/16384/16385, 2^16, 2^20} × encoded size{L-3..L+3,2L,2L+1,64KiB; thorough: L-6..L+6, L/2, 3L, 10L} × {alone, after a small message} × WebSocket messages in {1,2,3,5} frames × {one big field, a field boundary exactly at the limit with more fields following}; send: protocol × (send limit, receive limit) pairs with S<L, S>L and defaults × reply size around S; streamed HttpBody uploads: limit{4,32,101,203,1009} × body size{0,1,L-1,L,L+1,L+37,2L,2L+1,3L+5} × end of body{EOF alone, EOF with the last bytes} × read size{all,1,7,64,L,L+1}: every chunk within the limit, every byte delivered; bogus length prefixes {L+1,2^31-1,2^31,2^32-1,2^32,2^63-1,2^63,2^64-1} with a 3-byte body; distinct = (kind, protocol, gzip, limit, size class, outcome)")
+	r.Rule("receive: protocol{HTTP unary json/proto/HttpBody, HTTP stream json/newline-delimited json/proto, gRPC (+json), gRPC-web, gRPC-web-text, WebSocket} × gzip{off,on (Content-Encoding / per-message grpc-encoding, highly compressible payload)} × limit{32,100,1000,default 4MiB; thorough: 17 limits incl. 127/128/129, 16383/16384/16385, 2^16, 2^20} × encoded size{L-3..L+3,2L,2L+1,64KiB; thorough: L-6..L+6, L/2, 3L, 10L} × {alone, after a small message} × WebSocket messages in {1,2,3,5} frames × {one big field, a field boundary exactly at the limit with more fields following}; send: protocol × (send limit, receive limit) pairs with S<L, S>L and defaults × reply size around S; streamed HttpBody uploads: limit{4,32,101,203,1009} × body size{0,1,L-1,L,L+1,L+37,2L,2L+1,3L+5} × end of body{EOF alone, EOF with the last bytes} × read size{all,1,7,64,L,L+1}: every chunk within the limit, every byte delivered; bogus length prefixes {L+1,2^31-1,2^31,2^32-1,2^32,2^63-1,2^63,2^64-1} with a 3-byte body; distinct = (kind, protocol, gzip, limit, size class, outcome)")
 	r.Assume("sizes are measured in the codec used on the wire, after decompression; the message carries one string field so the size is an exact function of its length", "what happens to replies above the send limit is not part of the property")
 	cases := c08Cases(c.Thorough())
 	envs := make([]*c08Env, explore.Workers)
